@@ -91,6 +91,7 @@ def check(run: Run) -> None:
     c04.check(sub)
     run.floor("adopted compiler obligations", run.adopt(sub, ("C04.R1", "C04.R4"), "C03.R6"), 40)
     I = make_interp(model)
+    run.watch(I)
     helpers = _invoked_helpers(run, model)
     run.floor("SQL helpers invoked by to_sql_where", len(helpers), 9)
 
